@@ -316,7 +316,7 @@ func init() {
 	engine.Register(&engine.Prop{
 		ID: "C11",
 		Shards: func(th bool) []string {
-			var s []string
+			s := []string{"poly"}
 			for ri, rs := range c11Roots() {
 				good, _ := c11Options(rs.start)
 				for gi := range good {
@@ -326,7 +326,7 @@ func init() {
 			return s
 		},
 		Run:  c11Run,
-		Rule: "data graph of depth 3 from a struct/map/slice/pointer type family (repeated field names at several depths, prefix names Kids/KidsX, value- and pointer-receiver methods returning leaves/structs/slices, every leaf string spelling its own Go path); from 8 roots (struct value, pointer, slices and a leaf under names that are also field names, a map, a []interface{} of different struct types holding the same field names at different positions) every walk of the type graph of <=L steps (field, index, map key, method call) ending at a string leaf, with indexes/keys spelled as literals, variables, i+0 expressions, variables named like fields expressions that mention the root variable (len(ROOT) / 2), indexes that are themselves index-then-member paths through the same root, and unsigned / 64-bit index variables; each used in an output tag, through let, and (for walks through a slice) as loop iterable with the tail applied to the loop variable. Expected value = Go navigation by reflection. Every walk prefix is also extended by one uncompletable step (missing key, nil pointer then member/method, index 9 / -1 via variable, unknown field/method, unexported field), alone and followed by a further .Field / .Field[0] / .Method() continuation. Oracle: completable => exactly the leaf, or an error; never another value, never empty without error. Uncompletable => error or empty output, never a leaf, never a panic. Non-trivial: walks with >=2 steps.",
+		Rule: "data graph of depth 3 from a struct/map/slice/pointer type family (repeated field names at several depths, prefix names Kids/KidsX, value- and pointer-receiver methods returning leaves/structs/slices, every leaf string spelling its own Go path); from 8 roots (struct value, pointer, slices and a leaf under names that are also field names, a map, a []interface{} of different struct types holding the same field names at different positions) every walk of the type graph of <=L steps (field, index, map key, method call) ending at a string leaf, with indexes/keys spelled as literals, variables, i+0 expressions, variables named like fields expressions that mention the root variable (len(ROOT) / 2), indexes that are themselves index-then-member paths through the same root, and unsigned / 64-bit index variables; each used in an output tag, through let, and (for walks through a slice) as loop iterable with the tail applied to the loop variable. Expected value = Go navigation by reflection. Every walk prefix is also extended by one uncompletable step (missing key, nil pointer then member/method, index 9 / -1 via variable, unknown field/method, unexported field), alone and followed by a further .Field / .Field[0] / .Method() continuation. Oracle: completable => exactly the leaf, or an error; never another value, never empty without error. Uncompletable => error or empty output, never a leaf, never a panic. (poly) one field / method / indexed / helper-result path node evaluated with receivers of 3 struct types (and a pointer) whose same-named fields and methods sit at different positions - in a loop over a mixed slice in 6 orders and as consecutive executions of one parsed template: always the named member of the current receiver. Non-trivial: walks with >=2 steps.",
 		Bound: func(th bool) string {
 			if th {
 				return "walk length <=7"
@@ -337,6 +337,23 @@ func init() {
 }
 
 func c11Run(t *engine.T, shard string) {
+	if shard == "poly" {
+		// one path node evaluated with receivers of different struct types: each time the value Go navigation yields
+		for _, pc := range PolyCases() {
+			pc := pc
+			t.Case("poly "+pc.Name+" "+q(pc.Src), true, func() (string, *engine.Fail) {
+				out, err := RunPoly(pc)
+				if err != nil {
+					return "", engine.Failf("wrong-value", "expected %q, got error %v", pc.Want, err)
+				}
+				if out != pc.Want {
+					return "", engine.Failf("wrong-value", "Go navigation yields %q, template rendered %q", pc.Want, out)
+				}
+				return "value", nil
+			})
+		}
+		return
+	}
 	var ri, gi int
 	fmt.Sscanf(shard, "%d:%d", &ri, &gi)
 	rs := c11Roots()[ri]
